@@ -451,7 +451,8 @@ def rdr(id, variant, opts, weight=1, **kw):
     return fam(id, variant, "rdr", opts, weight=weight, crash_props=["C17", "C11"], timeout=20, **kw)
 
 
-_c11_q = [rdr("rdr-own", "sanl1", {"mode": "own"}), rdr("rdr-own-reader", "sanl1", {"mode": "own", "via": "reader"}), rdr("rdr-trunc", "sanl1", {"mode": "trunc"}), rdr("rdr-trunc-reader", "sanl1", {"mode": "trunc", "via": "reader"}), rdr("rdr-trunc-gz", "sanl1", {"mode": "trunc", "comp": "gz"}),
+_c11_q = [rdr("rdr-rec-mps-k4", "sanl1", {"mode": "rec", "fmt": "mps", "k": 4}, weight=3), rdr("rdr-rec-lp-k4", "sanl1", {"mode": "rec", "fmt": "lp", "k": 4}, weight=1), rdr("rdr-rec-bas-k4", "sanl1", {"mode": "rec", "fmt": "bas", "k": 4}, weight=1),
+          rdr("rdr-own", "sanl1", {"mode": "own"}), rdr("rdr-own-reader", "sanl1", {"mode": "own", "via": "reader"}), rdr("rdr-trunc", "sanl1", {"mode": "trunc"}), rdr("rdr-trunc-reader", "sanl1", {"mode": "trunc", "via": "reader"}), rdr("rdr-trunc-gz", "sanl1", {"mode": "trunc", "comp": "gz"}),
           rdr("rdr-trunc-bz2", "sanl1", {"mode": "trunc", "comp": "bz2"}), rdr("rdr-long", "sanl1", {"mode": "long"}), rdr("rdr-long-reader", "sanl1", {"mode": "long", "via": "reader"}),
           rdr("rdr-tok-lp-k3", "sanl1", {"mode": "tok", "fmt": "lp", "k": 3}, weight=2), rdr("rdr-tok-lp-k2-reader", "sanl1", {"mode": "tok", "fmt": "lp", "k": 2, "via": "reader"}),
           rdr("rdr-tok-mps-k2", "sanl1", {"mode": "tok", "fmt": "mps", "k": 2}), rdr("rdr-tok-mps-k2-reader", "sanl1", {"mode": "tok", "fmt": "mps", "k": 2, "via": "reader"}),
@@ -460,12 +461,12 @@ PLANS["C11"] = {
     "title": "no input file can crash, hang or corrupt the reader",
     "rule": ("exhaustive enumeration of finite neighbourhoods of 13 embedded valid files (6 LP, 5 MPS incl. SOS/REFROW, 2 basis): mode tok = every sequence of <= k tokens over a 24/33/11-token alphabet appended to each valid prefix; "
              "mode mut = every single token edit (delete, duplicate, replace by each alphabet token, swap) at every token position and every byte edit (delete, 0x00, 0xFF, newline, ':', '/', '-', '9') at every byte position, radius=2 adds "
-             "every pair of token edits within a 6-token window; mode own = every token replaced by every other distinct token of the same file (cross references such as a ranged row named as OBJNAME, 40k files); mode trunc = every byte prefix, plain and as a gzip/bzip2 stream cut at every byte; mode long = names, lines and digit strings around the internal buffer sizes "
+             "every pair of token edits within a 6-token window; mode rec = every sequence of <= k whole records (lines) from a 19/14/8-record alphabet after each valid prefix (sections out of order, repeated and interleaved, records of one section inside another); mode own = every token replaced by every other distinct token of the same file (cross references such as a ranged row named as OBJNAME, 40k files); mode trunc = every byte prefix, plain and as a gzip/bzip2 stream cut at every byte; mode long = names, lines and digit strings around the internal buffer sizes "
              "(126..256, 131070..131073 characters, 1..4000 digits). Each input goes through mpq_QSread_prob (and via=reader: the line-reader API with a memory error collector, every record walked and printed) or the basis readers; "
              "oracle: the forked worker survives (sanitizer build), returns within 20 s, NULL or a problem that passes the full query-conformance dump against its own read-back, can be written in both formats, solved and freed; "
              "fd 1/2 stay empty; allocation balance is zero; non-trivial = input differs from every base file and is not empty. Inputs with exponents of >= 5 digits are out of scope as the property says"),
     "quick": _c11_q,
-    "thorough": _c11_q + [rdr("rdr-tok-lp-k4", "sanl1", {"mode": "tok", "fmt": "lp", "k": 4}, weight=12), rdr("rdr-tok-mps-k3", "sanl1", {"mode": "tok", "fmt": "mps", "k": 3}, weight=4),
+    "thorough": _c11_q + [rdr("rdr-rec-mps-k5-reader", "sanl1", {"mode": "rec", "fmt": "mps", "k": 4, "via": "reader"}, weight=4), rdr("rdr-rec-lp-k5", "sanl1", {"mode": "rec", "fmt": "lp", "k": 5}, weight=6), rdr("rdr-tok-lp-k4", "sanl1", {"mode": "tok", "fmt": "lp", "k": 4}, weight=12), rdr("rdr-tok-mps-k3", "sanl1", {"mode": "tok", "fmt": "mps", "k": 3}, weight=4),
                           rdr("rdr-tok-bas-k5", "sanl1", {"mode": "tok", "fmt": "bas", "k": 5}, weight=8), rdr("rdr-mut2-bas", "sanl1", {"mode": "mut", "radius": 2, "fmt": "bas"}, weight=4),
                           rdr("rdr-mut2-lp", "sanl1", {"mode": "mut", "radius": 2, "fmt": "lp"}, weight=16), rdr("rdr-tok-lp-k4-prod", "prodl1", {"mode": "tok", "fmt": "lp", "k": 4}, weight=4)],
     "bounds": {"quick": "token sequences: LP <= 3, MPS <= 2, basis <= 4; all single token/byte edits of the 13 base files; all truncations incl. compressed; length family",
